@@ -403,14 +403,19 @@ def f_glob(present=("a", "b"), mode="tree", subs="none", cfg=0):
     return files
 
 
-def f_env(value=None, how="declared", v=1):
-    """E: ./e.py depends on VERIF_X, declared with env= or amended at run time."""
+def f_env(value=None, how="declared", v=1, ovr="none"):
+    """E: ./e.py depends on VERIF_X, declared with env= or amended at run time; `ovr` gives the step
+    an environment override of VERIF_Y (none, or one of two values), written to e2.out."""
+    kw = {"out": ["e.out", "e2.out"]}
+    # run() takes overrides as leading VAR=value assignments of the command
+    cmd = "./e.py" if ovr == "none" else f"VERIF_Y={ovr} ./e.py"
+    tail = [["write", "e.out", [], "$VERIF_X"], ["write", "e2.out", [], "$VERIF_Y"]]
     if how == "declared":
-        root = [["static", "e.py"], ["run", "./e.py", {"env": ["VERIF_X"], "out": ["e.out"]}]]
-        e = [["write", "e.out", [], "$VERIF_X"]]
+        kw["env"] = ["VERIF_X"]
+        e = tail
     else:
-        root = [["static", "e.py"], ["run", "./e.py", {"out": ["e.out"]}]]
-        e = [["amend", {"env": ["VERIF_X"]}], ["write", "e.out", [], "$VERIF_X"]]
+        e = [["amend", {"env": ["VERIF_X"]}], *tail]
+    root = [["static", "e.py"], ["run", cmd, kw]]
     return {"plan.py": script(root, v=v), "e.py": script(e)}
 
 
@@ -528,7 +533,7 @@ DOMAINS = {
                "subs": ("none", "ab")},
     "f_amend": {"version": ("inp", "none", "inp_out"), "extra": ("static", "built", "absent", "optional"),
                 "order": ("amend_first", "read_first")},
-    "f_env": {"how": ("declared", "amended"), "v": (1, 2)},
+    "f_env": {"how": ("declared", "amended"), "v": (1, 2), "ovr": ("none", "o", "p")},
     "f_vol": {"outdir": ("out/deep", "out2"), "log": ("vol", "out", "none"),
               "workdir": (".", "wd", "wd/in"), "present": (1, 0), "adopt": ("none", "tree", "file")},
     "f_redefine": {"inp": (("src.txt",), (), ("src.txt", "src2.txt")), "out": (("r.txt",), ("r.txt", "r2.txt"))},
